@@ -34,7 +34,7 @@ META = {
                     'by a one-letter marker token; no catcode op inside an argument group; \\gdef writes the bottom frame and '
                     'may be shadowed by a live local definition (lookup yields the innermost live definition)',
                     'no fault space exists for this property (sequential refinement only)'],
-    'probe_names': ['dfs_exhaustive', 'package_loaded_inside_group', 'user_environment', 'fresh_name_global_in_nesting', 'catalogue_scope', 'catalogue_dimen_spelling', 'catalogue_raise', 'declaration_frame', 'change_after_declaration_restored', 'char_let_shadowed', 'local_def_restored', 'global_def_survives', 'let_restored', 'catcode_restored', 'if_survives', 'counter_survives',
+    'probe_names': ['dfs_exhaustive', 'unknown_environment_in_math', 'package_loaded_inside_group', 'user_environment', 'fresh_name_global_in_nesting', 'catalogue_scope', 'catalogue_dimen_spelling', 'catalogue_raise', 'declaration_frame', 'change_after_declaration_restored', 'char_let_shadowed', 'local_def_restored', 'global_def_survives', 'let_restored', 'catcode_restored', 'if_survives', 'counter_survives',
                     'nested_depth_ge3', 'env_inside_group', 'group_inside_env', 'math_group', 'cell_scope', 'argument_group',
                     'gdef_shadowed', 'catcode_cow_two_frames'],
     'shrink_budget': 400,
@@ -48,7 +48,7 @@ PKGS = [('ifthen', 'ifthenelse'), ('cancel', 'cancel'), ('url', 'url'), ('color'
 FRESH = ['qfa', 'qfb']       # names that are NOT defined at the start: existence tests (\ifdefined, `in`, keys()) follow the stack too
 API_KINDS = ['group', 'env']
 TEX_KINDS = ['brace', 'begingroup', 'center', 'quote', 'math', 'cell', 'textbf', 'mbox', 'parenmath', 'displaymath',
-             'equation', 'itemize', 'minipage', 'footnote', 'dollars', 'figurestar', 'multicolumn', 'qenva', 'qenvb', 'qenvc']
+             'equation', 'itemize', 'minipage', 'footnote', 'dollars', 'figurestar', 'multicolumn', 'qenva', 'qenvb', 'qenvc', 'qunk']
 MATH_KINDS = ('math', 'parenmath', 'displaymath', 'equation', 'dollars')
 ARG_KINDS = ('textbf', 'mbox', 'footnote', 'multicolumn', 'mboxm')
 
@@ -168,7 +168,7 @@ class Model(object):
         if len(self.frames) >= 4:
             self.info['nested_depth_ge3'] = 1
         kinds = [f['kind'] for f in self.frames[1:]]
-        envs = ('center', 'quote', 'env', 'itemize', 'minipage', 'equation', 'qenva', 'qenvb', 'qenvc')
+        envs = ('center', 'quote', 'env', 'itemize', 'minipage', 'equation', 'qenva', 'qenvb', 'qenvc', 'qunk')
         if kind in ('qenva', 'qenvb', 'qenvc'):
             self.info['user_environment'] = 1
         for a, b in zip(kinds, kinds[1:]):
@@ -377,12 +377,13 @@ OPEN_TEX = {'brace': '{', 'begingroup': '\\begingroup ', 'center': '\\begin{cent
             'equation': '\\begin{equation}', 'itemize': '\\begin{itemize}\\item ', 'minipage': '\\begin{minipage}{3cm}',
             'footnote': '\\footnote{', 'dollars': '$$ ', 'figurestar': '\\begin{figure*}',
             'multicolumn': '\\begin{tabular}{ll}\\multicolumn{2}{c}{', 'mboxm': '\\mbox{',
-            'qenva': '\\begin{qenva}', 'qenvb': '\\begin{qenvb}', 'qenvc': '\\begin{qenvc}{}'}
+            'qenva': '\\begin{qenva}', 'qenvb': '\\begin{qenvb}', 'qenvc': '\\begin{qenvc}{}',
+            'qunk': '\\begin{qunk}'}            # an environment nobody defined (also used inside math: pmatrix without amsmath)
 CLOSE_TEX = {'brace': '}', 'begingroup': '\\endgroup ', 'center': '\\end{center}', 'quote': '\\end{quote}', 'math': '$',
              'cell': '\\end{tabular}', 'textbf': '}', 'mbox': '}', 'parenmath': '\\)', 'displaymath': '\\]',
              'equation': '\\end{equation}', 'itemize': '\\end{itemize}', 'minipage': '\\end{minipage}', 'footnote': '}',
              'dollars': '$$', 'figurestar': '\\end{figure*}', 'multicolumn': '}\\end{tabular}', 'mboxm': '}',
-             'qenva': '\\end{qenva}', 'qenvb': '\\end{qenvb}', 'qenvc': '\\end{qenvc}'}
+             'qenva': '\\end{qenva}', 'qenvb': '\\end{qenvb}', 'qenvc': '\\end{qenvc}', 'qunk': '\\end{qunk}'}
 PREAMBLE = ('\\documentclass{article}\\newcounter{cx}\\newif\\ifsw\\makeatletter\\def\\pr@be{L}\\makeatother\\def\\pr{O}'
             + ''.join('\\def\\%s{%s0}' % (n, n) for n in ALLNAMES)
             # user-defined environments: plain, with its end part redefined by \def, with an argument
@@ -441,7 +442,9 @@ def compile_tex(ops, global_prefix=False):
         o = op['op']
         if o == 'OPEN':
             k = op['kind']
-            if in_math and k not in ('begingroup', 'mbox'):
+            if in_math and k == 'qunk':
+                m.info['unknown_environment_in_math'] = 1
+            if in_math and k not in ('begingroup', 'mbox', 'qunk'):
                 k = 'brace'
             if in_math and k == 'mbox':
                 math_saved.append(in_math)      # text mode again inside the box
